@@ -115,8 +115,8 @@ func continuationW(w0 *qnet.World, prio []spectypes.OperatorID, fifo, lowestOnly
 		}
 		for _, o := range und {
 			r := o.Inst(cc.Height).State.Round
-			if r >= bound || (lowestOnly && r != low) {
-				continue
+			if r >= bound || (lowestOnly && r != low) || !o.HasTimer {
+				continue // (an operator whose timer is not armed cannot time out)
 			}
 			w.Apply(qnet.Event{Kind: qnet.Timeout, To: o.ID})
 			steps++
@@ -148,6 +148,12 @@ func checkTimeoutClause(r *ev.Run, w *qnet.World, st *stats) {
 	for _, o := range w.Undecided() {
 		prev := o.Inst(w.C.Height).State.Round
 		if int(prev)+1 >= 15 { // instance.CutoffRound
+			continue
+		}
+		if !o.HasTimer {
+			// the timer fired (or was never armed) and nothing re-armed it: no timeout can ever move
+			// this operator again
+			r.Violate("undecided-operator-without-round-timer", fmt.Sprintf("operator %d is undecided in round %d and its round timer is not armed", o.ID, prev), "c07-timeout", qnet.Artefact(w), nil, nil)
 			continue
 		}
 		w2 := w.Clone()
